@@ -292,7 +292,8 @@ impl World {
                 }
                 for _ in 0..3 {
                     if let Some(d) = cur.next() {
-                        l.push(json!(["after-end", self.ent(&d)]));
+                        let _ = d;
+                        l.push(json!([-9, "x", 0])); // an entry after the end
                     }
                 }
                 json!(["list", l])
@@ -333,6 +334,20 @@ impl World {
                     .map(|kv| json!([self.prof.key_id(kv.key()), "v", self.prof.val_id(kv.value())]))
                     .collect();
                 json!(["list", l])
+            }
+            "reseek" => {
+                // the same cursor is positioned twice; only the second seek matters
+                let mut cur = b.cursor();
+                cur.seek(&lo);
+                for _ in 0..o["hi"].as_i64().unwrap_or(0) {
+                    if cur.next().is_none() {
+                        break;
+                    }
+                }
+                let exists = cur.seek(&key);
+                let c0: Vec<Value> = cur.current().iter().map(|d| self.ent(d)).collect();
+                let drain: Vec<Value> = cur.map(|d| self.ent(&d)).collect();
+                json!(["seek", exists, c0, drain])
             }
             "seek" => {
                 let mut cur = b.cursor();
